@@ -116,6 +116,10 @@ pub fn screen_coord(s: f32) -> BoxedStrategy<f32> {
         1 => ((0..=si * 2), prop_oneof![Just(1e-6f32), Just(-1e-6), Just(1e-4), Just(-1e-4), Just(1e-3), Just(-1e-3)])
             .prop_map(move |(i, d)| (i as f32 * 0.5 + d).clamp(0.0, s)),
         6 => (0.0f32..=s),
+        // negative zero, and the sliver of negative coordinates that still rounds to pixel 0 (callers clip to the
+        // viewport, and f32 rounding there can leave a coordinate a hair below zero)
+        1 => Just(-0.0f32),
+        1 => prop_oneof![Just(-1e-7f32), Just(-1e-3f32), -0.49f32..0.0],
     ]
     .boxed()
 }
